@@ -56,6 +56,10 @@ enum ZchSmartSpaceState {
 struct ZchDynamicState {
     /// Input to compare against configured available chords to output.
     zchd_input_keys: ZchInputKeys,
+    /// Keys physically held by the user, including ones that are not part of
+    /// `zchd_input_keys` because they were pressed while chording was disabled or were forgotten
+    /// by a state reset. Typing one of these keys as part of an output must release it first.
+    zchd_held_keys: ZchInputKeys,
     /// Whether chording should be enabled or disabled.
     /// Chording will be disabled if:
     /// - further presses cannot possibly activate a chord
@@ -258,6 +262,7 @@ impl ZchState {
         self.zch_chords = cfg.0;
         self.zch_cfg = cfg.1;
         self.zchd.zchd_reset();
+        self.zchd.zchd_held_keys.zchik_clear();
     }
 
     /// Zch handling for key presses.
@@ -287,6 +292,7 @@ impl ZchState {
             }
             _ => {}
         }
+        self.zchd.zchd_held_keys.zchik_insert(osc);
         if self.zchd.zchd_smart_space_state == ZchSmartSpaceState::Sent
             && self
                 .zch_cfg
@@ -604,6 +610,7 @@ impl ZchState {
         if osc.is_zippy_ignored() {
             return kb.release_key(osc);
         }
+        self.zchd.zchd_held_keys.zchik_remove(osc);
         self.zchd.zchd_state_change(&self.zch_cfg);
         self.zchd.zchd_release_key(osc);
         kb.release_key(osc)
@@ -622,7 +629,7 @@ impl ZchState {
 }
 
 fn type_osc(osc: OsCode, kb: &mut KbdOut, zchd: &ZchDynamicState) -> Result<(), std::io::Error> {
-    if zchd.zchd_input_keys.zchik_contains(osc) {
+    if zchd.zchd_held_keys.zchik_contains(osc) {
         kb.release_key(osc)?;
         kb.press_key(osc)?;
     } else {
